@@ -220,8 +220,8 @@ def op_q(a):
             p = tok.split(":")
             op = p[0]
             # the full state is printed after ops that involve the queue object, and at the end
-            with_state = op not in ("new", "mut", "unp", "sent") or k == len(toks) - 1
-            if op in ("mut", "unp", "enq") and vars_[int(p[1])] is None:
+            with_state = op not in ("new", "newb", "mut", "mutb", "unp", "sent") or k == len(toks) - 1
+            if op in ("mut", "mutb", "unp", "enq") and vars_[int(p[1])] is None:
                 out.append(f"{tok} -> skip" + (" " + show_qstate(node, vars_) if with_state else ""))
                 continue
             if op == "new":
@@ -232,6 +232,20 @@ def op_q(a):
                 *hf, m = p[2].split("/")
                 set_header(fr.header, hf)
                 fr.message = unhex(m)
+                r = "ok"
+            elif op == "newb":       # a frame whose message is a mutable buffer
+                fr = make_frame(p[2])
+                fr.message = bytearray(fr.message)
+                vars_[int(p[1])] = fr
+                r = "ok"
+            elif op == "mutb":       # the caller rewrites its own message buffer in place
+                fr = vars_[int(p[1])]
+                *hf, m = p[2].split("/")
+                set_header(fr.header, hf)
+                if isinstance(fr.message, bytearray):
+                    fr.message[:] = unhex(m)
+                else:
+                    fr.message = bytearray(unhex(m))
                 r = "ok"
             elif op == "unp":
                 fr = vars_[int(p[1])]
